@@ -339,7 +339,11 @@ let verdict_e2e_base impl =
                   | ESub _ -> "error harness-duplicate-submit"
                   | EOut _ -> "error mock-answer-not-owed"
                   | EIn (sid, m) ->
-                    (match PositiveMap.find (mkey sid) a.a_owed with
+                    let has k mp = PositiveMap.find (mkey k) mp <> None in
+                    (* the property clause only when it is the one that rejects: the frame is otherwise
+                       regular (id in range, submitted, written once, no outcome yet) *)
+                    let regular = int_of_n sid < 32768 && has m a.a_sub && not (has m a.a_recv) && not (has m a.a_done) in
+                    (match (if regular then PositiveMap.find (mkey sid) a.a_owed else None) with
                      | Some m' -> "viol stream-carried-by-two-unanswered-requests stream=" ^ hex_of_n sid
                                   ^ " first=" ^ hex_of_n m' ^ " second=" ^ hex_of_n m
                      | None -> "diff bad-request-frame")   (* id >= 32768 / not submitted / written twice / after the outcome: not the property *)
@@ -403,7 +407,8 @@ let verdict_threshold case impl =
       (* the history up to the close is judged by the acceptor; afterwards every live caller must
          have failed with the orphan error, none may hold rows *)
       match verdict_e2e_base impl with
-      | v when starts_with "viol" v || starts_with "error" v -> v
+      | v when not (v = "ok" || starts_with "diff connection-closed-unexpectedly" v
+                    || starts_with "diff unexpected-error-outcome" v) -> v
       | _ ->
         if closed && too_many = live && rows = 0 then "ok"
         else Printf.sprintf "diff orphan-threshold model=break closed=%b failed=%d/%d rows=%d" closed too_many live rows
@@ -545,12 +550,37 @@ let verdict_reader case impl =
        end)
   | _ -> "error bad-reader-case"
 
+(* a case whose scenario was attempted more than once: `<history> NEXT <history>`; every attempt is judged *)
+let segments (impl : string list) : string list list =
+  let rec go cur acc = function
+    | [] -> List.rev (List.rev cur :: acc)
+    | "NEXT" :: r -> go [] (List.rev cur :: acc) r
+    | t :: r -> go (t :: cur) acc r in
+  go [] [] impl
+
+let verdict_e2e impl =
+  let rec all = function
+    | [] -> "ok"
+    | seg :: r -> (match verdict_e2e_base seg with "ok" -> all r | v -> v) in
+  all (segments impl)
+
+let verdict_threshold_all case impl =
+  let segs = segments impl in
+  let rec go = function
+    | [] -> "error empty-K"
+    | [last] -> verdict_threshold case last
+    | seg :: r ->
+      (* an earlier attempt: the connection did not end (that is why another attempt followed); its
+         history must be clean all the same *)
+      (match verdict_e2e_base seg with "ok" -> go r | v -> v) in
+  go segs
+
 let verdict case impl =
   match case with
   | [] -> "error empty-case"
   | "T" :: optoks -> verdict_timed optoks impl
-  | ("P" | "R" | "X" | "G" | "N" | "S") :: _ -> verdict_e2e_base impl
-  | "K" :: rest -> verdict_threshold rest impl
+  | ("P" | "R" | "X" | "G" | "N" | "S") :: _ -> verdict_e2e impl
+  | "K" :: rest -> verdict_threshold_all rest impl
   | "O" :: rest -> verdict_reader rest impl
   | _kind :: optoks -> verdict_sm optoks impl
 
